@@ -1,3 +1,363 @@
-use crate::{json::J, Ctx};
-pub fn c12(_ctx: &Ctx) {}
-pub fn replay(_c: &J) -> bool { false }
+//! C12: constructors accept exactly the well-formed images and keep them verbatim.
+use crate::ev;
+use crate::frames::{self, FrameSpec};
+use crate::gen::Rng;
+use crate::json::J;
+use crate::util::*;
+use crate::{Ctx, Tier};
+use std::sync::atomic::{AtomicU64, Ordering::Relaxed};
+use std::sync::Mutex;
+use yuvxyb::*;
+
+fn errname(e: YuvError) -> &'static str {
+    match e {
+        YuvError::SubsamplingMismatch => "SubsamplingMismatch",
+        YuvError::InvalidLumaWidth => "InvalidLumaWidth",
+        YuvError::InvalidLumaHeight => "InvalidLumaHeight",
+        YuvError::InvalidData => "InvalidData",
+    }
+}
+
+/// Returns (accepted, error name) and reports violations of the geometry contract.
+fn check_spec<T: Pixel>(s: &FrameSpec, rng: &mut Rng, confusion: &mut std::collections::BTreeMap<(String, String), u64>) {
+    let frame: Frame<T> = frames::build(s, rng);
+    let keep = frame.clone();
+    let cfg = s.config();
+    let m = s.model();
+    let res = ev::guarded(|| Yuv::new(frame, cfg));
+    let model_s = if m.well_formed() {
+        "well-formed".to_string()
+    } else {
+        let mut v = Vec::new();
+        if m.dec_mismatch {
+            v.push("dec");
+        }
+        if m.bad_width {
+            v.push("width");
+        }
+        if m.bad_height {
+            v.push("height");
+        }
+        if m.bad_chroma_size {
+            v.push("chroma-size");
+        }
+        v.join("+")
+    };
+    match res {
+        Err(msg) => {
+            *confusion.entry((model_s, "panic".into())).or_insert(0) += 1;
+            ev::violation(format!("C12|yuv-new-panic|{}", ev::panic_site(&msg)), format!("Yuv::new panicked for {}: {msg}", s.desc()), s.json());
+        }
+        Ok(Ok(y)) => {
+            *confusion.entry((model_s.clone(), "Ok".into())).or_insert(0) += 1;
+            if !m.well_formed() {
+                ev::violation(format!("C12|accepted-malformed|{model_s}"), format!("Yuv::new accepted a frame that is malformed ({model_s}): {}", s.desc()), s.json());
+                return;
+            }
+            // verbatim: planes, dimensions, config
+            if y.width() != s.w || y.height() != s.h || y.config() != cfg {
+                ev::violation("C12|yuv-not-verbatim|dims-or-config", format!("accepted image reports {}x{} {:?}; given {}x{} {:?}", y.width(), y.height(), y.config(), s.w, s.h, cfg), s.json());
+            }
+            if y.data().len() != 3 || (0..3).any(|p| y.data()[p] != keep.planes[p]) {
+                ev::violation("C12|yuv-not-verbatim|planes", format!("accepted image's planes differ from the frame passed in: {}", s.desc()), s.json());
+            }
+        }
+        Ok(Err(e)) => {
+            *confusion.entry((model_s.clone(), errname(e).into())).or_insert(0) += 1;
+            if m.well_formed() {
+                ev::violation(format!("C12|rejected-well-formed|{}", errname(e)), format!("Yuv::new rejected a well-formed frame with {e:?}: {}", s.desc()), s.json());
+            } else if !m.allows(e) {
+                ev::violation(format!("C12|wrong-error|{model_s}|{}", errname(e)), format!("Yuv::new reported {e:?} but the failing condition is {model_s}: {}", s.desc()), s.json());
+            }
+        }
+    }
+}
+
+/// one out-of-range sample at position `pos` (buffer index) of plane `pl`
+fn check_sample(s: &FrameSpec, pl: usize, pos: usize, rng: &mut Rng) -> Option<(bool, bool)> {
+    // only u16 with depth < 16 can hold an out-of-range sample
+    let mut f: Frame<u16> = frames::build(s, rng);
+    let p = &mut f.planes[pl];
+    if pos >= p.data.len() {
+        return None;
+    }
+    let stride = p.cfg.stride;
+    let (y, x) = (pos / stride.max(1), pos % stride.max(1));
+    let visible = y >= p.cfg.yorigin && y < p.cfg.yorigin + p.cfg.height && x >= p.cfg.xorigin && x < p.cfg.xorigin + p.cfg.width;
+    let maxv = (1u32 << s.depth) - 1;
+    p.data[pos] = (maxv + 1 + rng.below((65535 - maxv) as u64) as u32) as u16;
+    let r = ev::guarded(|| Yuv::new(f, s.config()));
+    match r {
+        Err(msg) => {
+            ev::violation(format!("C12|yuv-new-panic|{}", ev::panic_site(&msg)), format!("Yuv::new panicked: {msg}"), s.json().set("bad_plane", pl).set("bad_pos", pos));
+            None
+        }
+        Ok(r) => {
+            let rejected = matches!(r, Err(YuvError::InvalidData));
+            let other_err = matches!(r, Err(e) if e != YuvError::InvalidData);
+            if other_err {
+                ev::violation("C12|sample|wrong-error", format!("{r:?} for an out-of-range sample in a well-formed frame {}", s.desc()), s.json().set("bad_plane", pl).set("bad_pos", pos));
+            } else if visible && !rejected {
+                ev::violation(
+                    format!("C12|sample|visible-accepted|plane{pl}"),
+                    format!("a visible sample above 2^{}-1 at plane {pl} ({x},{y}) was accepted: {}", s.depth, s.desc()),
+                    s.json().set("bad_plane", pl).set("bad_pos", pos),
+                );
+            } else if !visible && rejected {
+                ev::violation(
+                    format!("C12|sample|padding-rejected|plane{pl}"),
+                    format!("a padding sample (buffer index {pos}) above 2^{}-1 made Yuv::new fail: {}", s.depth, s.desc()),
+                    s.json().set("bad_plane", pl).set("bad_pos", pos),
+                );
+            }
+            Some((visible, rejected))
+        }
+    }
+}
+
+fn float_ctor_checks(ctx: &Ctx) -> u64 {
+    let mut n = 0u64;
+    let mut rng = Rng::new(ctx.seed, 0x0C12_F);
+    let maxd: usize = 40;
+    let mut counts = [0u64; 2];
+    for len in 0..=maxd {
+        let data: Vec<[f32; 3]> = (0..len).map(|_| [rng.unit() as f32, rng.unit() as f32 * 360.0, f32::from_bits(rng.next() as u32)]).collect();
+        for w in 0..=maxd {
+            for h in 0..=maxd {
+                let want_ok = len == w * h;
+                macro_rules! one {
+                    ($name:expr, $ctor:expr, $get:expr) => {{
+                        n += 1;
+                        let r = ev::guarded(|| $ctor);
+                        match r {
+                            Err(msg) => ev::violation(format!("C12|{}-new-panic", $name), msg, J::obj().set("kind", "float-ctor").set("type", $name).set("len", len).set("w", w).set("h", h)),
+                            Ok(Ok(img)) => {
+                                counts[0] += 1;
+                                let (d, iw, ih): (Vec<[f32; 3]>, usize, usize) = $get(&img);
+                                if !want_ok {
+                                    ev::violation(format!("C12|{}-accepted-mismatch", $name), format!("{}::new accepted len={len} for {w}x{h}", $name), J::obj().set("kind", "float-ctor").set("type", $name).set("len", len).set("w", w).set("h", h));
+                                } else if iw != w || ih != h || d.len() != len || d.iter().zip(data.iter()).any(|(a, b)| (0..3).any(|c| a[c].to_bits() != b[c].to_bits())) {
+                                    ev::violation(format!("C12|{}-not-verbatim", $name), format!("{}::new changed data or dimensions for len={len} {w}x{h}", $name), J::obj().set("kind", "float-ctor").set("type", $name).set("len", len).set("w", w).set("h", h));
+                                }
+                            }
+                            Ok(Err(e)) => {
+                                counts[1] += 1;
+                                if want_ok {
+                                    ev::violation(format!("C12|{}-rejected-match", $name), format!("{}::new rejected len={len} for {w}x{h}: {e:?}", $name), J::obj().set("kind", "float-ctor").set("type", $name).set("len", len).set("w", w).set("h", h));
+                                } else if e != CreationError::ResolutionMismatch {
+                                    ev::violation(format!("C12|{}-wrong-error", $name), format!("{e:?}"), J::Null);
+                                }
+                            }
+                        }
+                    }};
+                }
+                one!("Rgb", Rgb::new(data.clone(), w, h, TC::SRGB, CP::BT709), |i: &Rgb| (i.data().to_vec(), i.width(), i.height()));
+                one!("LinearRgb", LinearRgb::new(data.clone(), w, h), |i: &LinearRgb| (i.data().to_vec(), i.width(), i.height()));
+                one!("Xyb", Xyb::new(data.clone(), w, h), |i: &Xyb| (i.data().to_vec(), i.width(), i.height()));
+                one!("Hsl", Hsl::new(data.clone(), w, h), |i: &Hsl| (i.data().to_vec(), i.width(), i.height()));
+            }
+        }
+    }
+    // dimension products that wrap around usize: len must equal the true product
+    let big: [(usize, usize, usize); 7] = [
+        (0, 1usize << 32, 1usize << 32),
+        (4, (1usize << 63) + 2, 2),
+        (0, usize::MAX, 0),
+        (1, usize::MAX, usize::MAX),
+        (0, 1usize << 63, 2),
+        (6, (1usize << 63) + 3, 2),
+        (16, (1usize << 62) + 4, 4),
+    ];
+    for (len, w, h) in big {
+        let data = vec![[0.5f32; 3]; len];
+        let true_eq = (w as u128) * (h as u128) == len as u128;
+        macro_rules! big1 {
+            ($name:expr, $ctor:expr) => {{
+                n += 1;
+                match ev::guarded(|| $ctor.is_ok()) {
+                    Err(msg) => ev::violation(format!("C12|{}-new-panic|overflow", $name), format!("{}::new(len={len}, {w}, {h}) panicked: {msg}", $name), J::obj().set("kind", "float-ctor").set("type", $name).set("len", len).set("w", w).set("h", h)),
+                    Ok(ok) => {
+                        if ok != true_eq {
+                            ev::violation(
+                                format!("C12|{}-accepted-mismatch|overflow", $name),
+                                format!("{}::new(len={len}, w={w}, h={h}) returned ok={ok}, but width*height {} len", $name, if true_eq { "==" } else { "!=" }),
+                                J::obj().set("kind", "float-ctor").set("type", $name).set("len", len).set("w", w).set("h", h),
+                            );
+                        }
+                    }
+                }
+            }};
+        }
+        big1!("Rgb", Rgb::new(data.clone(), w, h, TC::SRGB, CP::BT709));
+        big1!("LinearRgb", LinearRgb::new(data.clone(), w, h));
+        big1!("Xyb", Xyb::new(data.clone(), w, h));
+        big1!("Hsl", Hsl::new(data.clone(), w, h));
+    }
+    ev::observe("float_ctor_cases", n);
+    ev::observe("float_ctor_accepted", counts[0]);
+    ev::observe("float_ctor_rejected", counts[1]);
+    n
+}
+
+pub fn c12(ctx: &Ctx) {
+    let full = ctx.tier == Tier::Thorough;
+    let lumas = frames::luma_sizes();
+    let confusion: Mutex<std::collections::BTreeMap<(String, String), u64>> = Mutex::new(Default::default());
+    let n_geo = AtomicU64::new(0);
+    let n_wellformed = AtomicU64::new(0);
+    let n_sample = AtomicU64::new(0);
+    let sample_tbl = Mutex::new([0u64; 4]); // visible-rejected, visible-accepted, padding-rejected, padding-accepted
+    let first_samples = Mutex::new(Vec::<J>::new());
+    ev::par_ranges("C12", lumas.len() as u64, 1, |_w, a, _b| {
+        let (w, h) = lumas[a as usize];
+        let mut rng = Rng::new(ctx.seed, 0x0C12_0000 + a);
+        let mut conf: std::collections::BTreeMap<(String, String), u64> = Default::default();
+        let mut cnt = 0u64;
+        let mut wf = 0u64;
+        let mut st = [0u64; 4];
+        let mut ns = 0u64;
+        frames::for_luma(w, h, full && w <= 12, |_i, s| {
+            if w > 12 {
+                // larger lumas: a thin slice (chroma sizes within +-1 of the implied size, two paddings, two types)
+                let c = (w >> s.ss.0, h >> s.ss.1);
+                let near = |a: usize, b: usize| a + 1 >= b && a <= b + 1;
+                if !(near(s.cu.0, c.0) && near(s.cu.1, c.1)) && s.du == (s.ss.0 as usize, s.ss.1 as usize) {
+                    return;
+                }
+                if !(s.pad == frames::PADS[0] || s.pad == frames::PADS[7]) || !(s.depth == 8 && s.u8s || s.depth == 10) {
+                    return;
+                }
+            }
+            cnt += 1;
+            if s.u8s {
+                check_spec::<u8>(&s, &mut rng, &mut conf);
+            } else {
+                check_spec::<u16>(&s, &mut rng, &mut conf);
+            }
+            if s.model().well_formed() {
+                wf += 1;
+                if first_samples.lock().unwrap().len() < 4 {
+                    first_samples.lock().unwrap().push(s.json());
+                }
+                // out-of-range sample sweep: u16 storage, every depth 8..15, on well-formed geometry
+                let sweep = if full { true } else { s.pad == frames::PADS[0] || s.pad == frames::PADS[7] || s.pad == frames::PADS[3] };
+                if !s.u8s && s.depth == 10 && w <= 12 && sweep {
+                    let depths: &[u8] = if full { &[8, 9, 10, 11, 12, 13, 14, 15] } else { &[8, 9, 12, 15] };
+                    for &depth in depths {
+                        let s2 = FrameSpec { depth, ..s };
+                        for pl in 0..3 {
+                            let probe: Frame<u16> = frames::build(&s2, &mut rng);
+                            let len = probe.planes[pl].data.len();
+                            let cfgp = &probe.planes[pl].cfg;
+                            // all visible positions, plus padding positions: neighbours of the visible area, buffer ends, random
+                            let mut pos: Vec<usize> = Vec::new();
+                            for y in 0..cfgp.height {
+                                for x in 0..cfgp.width {
+                                    pos.push((cfgp.yorigin + y) * cfgp.stride + cfgp.xorigin + x);
+                                }
+                            }
+                            if len > 0 {
+                                pos.extend([0, len - 1]);
+                                if cfgp.width > 0 && cfgp.height > 0 {
+                                    let first = cfgp.yorigin * cfgp.stride + cfgp.xorigin;
+                                    pos.push(first + cfgp.width); // just right of the first row
+                                    pos.push(first.saturating_sub(1));
+                                    pos.push(first + cfgp.height * cfgp.stride); // just below the last row
+                                    pos.push((first + cfgp.height * cfgp.stride).saturating_sub(1));
+                                }
+                                for _ in 0..4 {
+                                    pos.push(rng.below(len as u64) as usize);
+                                }
+                            }
+                            // thin out: all positions only for the smallest depth loop iteration pair
+                            let step = if depth == 9 || depth == 15 { 1 } else { 5 };
+                            for (k, p) in pos.iter().enumerate() {
+                                if k % step != 0 {
+                                    continue;
+                                }
+                                if let Some((vis, rej)) = check_sample(&s2, pl, *p, &mut rng) {
+                                    ns += 1;
+                                    st[(if vis { 0 } else { 2 }) + (if rej { 0 } else { 1 })] += 1;
+                                }
+                            }
+                        }
+                    }
+                }
+            }
+        });
+        n_geo.fetch_add(cnt, Relaxed);
+        n_wellformed.fetch_add(wf, Relaxed);
+        n_sample.fetch_add(ns, Relaxed);
+        let mut g = confusion.lock().unwrap();
+        for (k, v) in conf {
+            *g.entry(k).or_insert(0) += v;
+        }
+        let mut t = sample_tbl.lock().unwrap();
+        for i in 0..4 {
+            t[i] += st[i];
+        }
+    });
+    let nf = float_ctor_checks(ctx);
+    let g = confusion.lock().unwrap();
+    let tbl: Vec<J> = g.iter().map(|((m, a), n)| J::obj().set("model", m.as_str()).set("actual", a.as_str()).set("frames", *n)).collect();
+    ev::observe("confusion_model_vs_actual", J::Arr(tbl));
+    let t = sample_tbl.lock().unwrap();
+    ev::observe("out_of_range_sample_cases", J::obj().set("visible_rejected", t[0]).set("visible_accepted", t[1]).set("padding_rejected", t[2]).set("padding_accepted", t[3]));
+    ev::observe("frame_geometries", n_geo.load(Relaxed));
+    ev::observe("well_formed_geometries", n_wellformed.load(Relaxed));
+    for s in first_samples.lock().unwrap().iter() {
+        ev::sample(s.clone());
+    }
+    let total = n_geo.load(Relaxed) + n_sample.load(Relaxed) + nf;
+    ev::add_evals(total);
+    // every enumerated geometry / sample position / (len,w,h) is distinct by construction; non-trivial = all (each has a definite expected verdict)
+    ev::add_nontrivial(total);
+    ev::exhaustive(full);
+    ev::rule(
+        "frames built with Plane::new for luma w,h in 1..=12 (+6 larger sizes): config subsampling x plane decimation in {0,1,2}^2 (equal: chroma-U sizes from {0,1,c-1,c,c+1,luma,13} (thorough: 0..=13), \
+         7 V-plane variants (same, one dimension +-1, decimation differing), 8 padding triples incl. U/V padded differently, u8/8 u16/8 u16/10 u16/16; unequal: chroma sized for either), each compared with the property's predicate; \
+         for well-formed geometry one sample above 2^n-1 (n=8..15) at every visible position and at padding positions of every plane; Rgb/LinearRgb/Xyb/Hsl::new for all (len,w,h) in 0..=40 plus products that wrap usize. \
+         Enumerated without repetition, so distinct by construction",
+    );
+}
+
+pub fn replay(case: &J) -> bool {
+    let kind = case.get("kind").and_then(J::as_str).unwrap_or("");
+    if kind == "frame" {
+        let Some(s) = FrameSpec::from_json(case) else { return false };
+        let mut rng = Rng::new(1, 1);
+        let mut conf = Default::default();
+        ev::add_evals(1);
+        if let (Some(pl), Some(pos)) = (case.get("bad_plane").and_then(J::as_u64), case.get("bad_pos").and_then(J::as_u64)) {
+            let r = check_sample(&s, pl as usize, pos as usize, &mut rng);
+            ev::observe("replay", J::obj().set("visible_rejected", r.map(|x| vec![x.0, x.1])));
+            return true;
+        }
+        if s.u8s {
+            check_spec::<u8>(&s, &mut rng, &mut conf);
+        } else {
+            check_spec::<u16>(&s, &mut rng, &mut conf);
+        }
+        ev::observe("replay", J::Arr(conf.iter().map(|((m, a), _)| J::obj().set("model", m.as_str()).set("actual", a.as_str())).collect()));
+        return true;
+    }
+    if kind == "float-ctor" {
+        let (Some(t), Some(len), Some(w), Some(h)) = (case.get("type").and_then(J::as_str), case.get("len").and_then(J::as_u64), case.get("w").and_then(J::as_u64), case.get("h").and_then(J::as_u64)) else { return false };
+        let (len, w, h) = (len as usize, w as usize, h as usize);
+        let data = vec![[0.25f32; 3]; len];
+        let ok = ev::guarded(|| match t {
+            "Rgb" => Rgb::new(data.clone(), w, h, TC::SRGB, CP::BT709).is_ok(),
+            "LinearRgb" => LinearRgb::new(data.clone(), w, h).is_ok(),
+            "Xyb" => Xyb::new(data.clone(), w, h).is_ok(),
+            _ => Hsl::new(data.clone(), w, h).is_ok(),
+        });
+        ev::add_evals(1);
+        let want = (w as u128) * (h as u128) == len as u128;
+        ev::observe("replay", J::obj().set("result", format!("{ok:?}")).set("expected_ok", want));
+        if ok != Ok(want) {
+            ev::violation("C12|replay", format!("{ok:?} expected ok={want}"), case.clone());
+        }
+        return true;
+    }
+    false
+}
